@@ -856,3 +856,134 @@ Theorem C05_db_query_remove_isolated_node_preserves_stored_db :
                         frame (hp sp) (hp sp') (sd_foot root w) (sd_foot root w')).
 Proof. exact so_q_remove_isolated_node_stored. Qed.
 Print Assumptions C05_db_query_remove_isolated_node_preserves_stored_db.
+
+(* ---- THE LINK TO THE VALIDATED QUERY SEMANTICS Queries.exec (theories/StoredDbOpsLink.v) ----
+   The theorems above are stated against compositions of DbModel's functions; here the same programs are stated against
+   `Queries.exec` — the query semantics compared with the real database on generated histories (C09-C16 correspondence).
+   The query shapes the storage-program correspondence (`hx_core ops`) executes:
+     lq_insert_node l      = InsertNodes 1 (Single l) [] (Ids [])                        insert().nodes().values([l])
+     lq_insert_values id l = InsertValues (Ids [QId id]) (Single l)                      insert().values([l]).ids(id)
+     lq_insert_edge f t    = InsertEdges (Ids [QId f]) (Ids [QId t]) (Single []) false (Ids [])   insert().edges().from(f).to(t)
+     lq_remove id          = Remove (Ids [QId id])                                       remove().ids(id)
+   C05_db_exec_step_shapes: for these shapes `exec_mut_step rv d q` (every revision rv: no flag matters) IS the composition of
+   DbModel functions the so_q_* theorems mention, with result count and element ids; C05_db_exec_commits: a successful
+   mutating `exec` = the step followed by commit (the undo stack, which stored_db does not look at, is cleared).
+   C05_db_exec_*_preserves_stored_db: the program ends in a store that HOLDS `fst (exec rv d q)` and returns the id / count
+   `snd (exec rv d q)` reports (qres_ids: result count and the ids of the result's elements). *)
+From Agdb Require Import StoredDbOpsLink.
+
+Theorem C05_db_exec_commits :
+  forall rv d q d1 n els,
+    is_mutating q = true -> exec_mut_step rv d q = StOk d1 (n, els) ->
+    Queries.exec rv d q = (DbModel.commit d1, QOk n els).
+Proof. exact exec_of_step. Qed.
+Print Assumptions C05_db_exec_commits.
+
+Theorem C05_db_exec_step_shapes :
+  forall rv d,
+    (forall l, let id := fst (insert_node_db d) in
+               let d1 := mq_insert_key_values (reserve_kv (snd (insert_node_db d)) id) id l in
+               exec_mut_step rv d (lq_insert_node l) = StOk d1 (1%Z, [elem d1 id []])) /\
+    (forall id l, graph_index (gr d) id = true ->
+               exec_mut_step rv d (lq_insert_values id l) =
+               StOk (mq_insert_or_replace_key_values (reserve_kv d id) id l) (Queries.lenZ l, [])) /\
+    (forall f t e d1, graph_index (gr d) f = true -> graph_index (gr d) t = true ->
+               insert_edge_db d f t = DbModel.ROk (e, d1) ->
+               exec_mut_step rv d (lq_insert_edge f t) = StOk (reserve_kv d1 e) (1%Z, [elem (reserve_kv d1 e) e []])) /\
+    (forall e G', (e < 0)%Z -> is_edge (gr d) e = true -> Graph.remove_edge (gr d) e = Some G' ->
+               exec_mut_step rv d (lq_remove e) = StOk (remove_all_values (fst (remove_edge_db d e)) e) (1%Z, [])) /\
+    (forall n, (0 < n)%Z -> is_node (gr d) n = true -> imap_key (aliases d) n = None ->
+               snd (remove_node_db d n None) = None ->
+               exec_mut_step rv d (lq_remove n) = StOk (remove_all_values (fst (remove_node_db d n None)) n) (1%Z, [])).
+Proof. exact step_shapes. Qed.
+Print Assumptions C05_db_exec_step_shapes.
+
+(* insert().edges().from(f).to(t) as a storage program (so_q_insert_edge: insert_edge, reserve_key_value_capacity(e, 0) inside
+   one storage transaction): stored, computing DbModel's insert_edge_db followed by reserve_kv; an invalid endpoint: None,
+   the database as before *)
+Theorem C05_db_query_insert_edge_preserves_stored_db :
+  forall (fl : bool) root d w h f t sp,
+    stored_db_w (hp sp) root d w -> so_handles h w -> so_graph_ok (gr d) ->
+    (insert_edge (gr d) f t <> None -> so_edge_ok (gr d) f t) ->
+    (forall e d1, insert_edge_db d f t = DbModel.ROk (e, d1) -> so_index_ok (cg_as_u64 e)) ->
+    cwp fl (so_q_insert_edge h f t) sp
+        (fun r sp' =>
+           match insert_edge_db d f t with
+           | DbModel.ROk (e, d1) =>
+             exists h' w', r = CrOk (h', Some e) /\ stored_db_w (hp sp') root (reserve_kv d1 e) w' /\ so_handles h' w' /\
+                           sdepth sp' = sdepth sp /\ frame (hp sp) (hp sp') (sd_foot root w) (sd_foot root w')
+           | DbModel.RErr _ =>
+             r = CrOk (h, None) /\ stored_db_w (hp sp') root d w /\ sdepth sp' = sdepth sp /\
+             frame (hp sp) (hp sp') (sd_foot root w) (sd_foot root w)
+           end).
+Proof. exact so_q_insert_edge_stored. Qed.
+Print Assumptions C05_db_query_insert_edge_preserves_stored_db.
+
+Theorem C05_db_exec_insert_node_preserves_stored_db :
+  forall (fl : bool) rv root d w h l sp,
+    stored_db_w (hp sp) root d w -> so_handles h w -> so_graph_ok (gr d) ->
+    let id := fst (insert_node_db d) in
+    so_index_ok (cg_as_u64 id) -> so_kvs_ok (reserve_kv (snd (insert_node_db d)) id) id l ->
+    let q := InsertNodes 1 (Single l) [] (Ids []) in
+    cwp fl (so_q_insert_node h l) sp
+        (fun r sp' => exists h' w', r = CrOk (h', id) /\ qres_ids (snd (Queries.exec rv d q)) = Some (1%Z, [id]) /\
+                        stored_db_w (hp sp') root (fst (Queries.exec rv d q)) w' /\ so_handles h' w' /\
+                        sdepth sp' = sdepth sp /\ frame (hp sp) (hp sp') (sd_foot root w) (sd_foot root w')).
+Proof. exact so_exec_insert_node_stored. Qed.
+Print Assumptions C05_db_exec_insert_node_preserves_stored_db.
+
+Theorem C05_db_exec_insert_values_preserves_stored_db :
+  forall (fl : bool) rv root d w h id l sp,
+    stored_db_w (hp sp) root d w -> so_handles h w -> graph_index (gr d) id = true ->
+    so_index_ok (cg_as_u64 id) -> so_iors_ok (reserve_kv d id) id l ->
+    let q := InsertValues (Ids [QId id]) (Single l) in
+    cwp fl (so_q_insert_values h id l) sp
+        (fun r sp' => exists h' w', r = CrOk h' /\ qres_ids (snd (Queries.exec rv d q)) = Some (Queries.lenZ l, []) /\
+                        stored_db_w (hp sp') root (fst (Queries.exec rv d q)) w' /\ so_handles h' w' /\
+                        sdepth sp' = sdepth sp /\ frame (hp sp) (hp sp') (sd_foot root w) (sd_foot root w')).
+Proof. exact so_exec_insert_values_stored. Qed.
+Print Assumptions C05_db_exec_insert_values_preserves_stored_db.
+
+Theorem C05_db_exec_insert_edge_preserves_stored_db :
+  forall (fl : bool) rv root d w h f t sp,
+    stored_db_w (hp sp) root d w -> so_handles h w -> so_graph_ok (gr d) ->
+    is_node (gr d) f = true -> is_node (gr d) t = true -> (0 < f)%Z -> (0 < t)%Z ->
+    so_edge_ok (gr d) f t ->
+    let e := (- fst (get_free_index (gr d)))%Z in
+    so_index_ok (cg_as_u64 e) ->
+    let q := InsertEdges (Ids [QId f]) (Ids [QId t]) (Single []) false (Ids []) in
+    cwp fl (so_q_insert_edge h f t) sp
+        (fun r sp' => exists h' w', r = CrOk (h', Some e) /\ qres_ids (snd (Queries.exec rv d q)) = Some (1%Z, [e]) /\
+                        stored_db_w (hp sp') root (fst (Queries.exec rv d q)) w' /\ so_handles h' w' /\
+                        sdepth sp' = sdepth sp /\ frame (hp sp) (hp sp') (sd_foot root w) (sd_foot root w')).
+Proof. exact so_exec_insert_edge_stored. Qed.
+Print Assumptions C05_db_exec_insert_edge_preserves_stored_db.
+
+Theorem C05_db_exec_remove_edge_preserves_stored_db :
+  forall (fl : bool) rv root d w h e sp,
+    stored_db_w (hp sp) root d w -> so_handles h w -> (e < 0)%Z -> is_edge (gr d) e = true ->
+    so_graph_ok (gr d) -> so_remove_edge_ok (gr d) e ->
+    so_slot_valid (sw_vi w) (zabs_nat e) ->
+    (forall x, In x (kvs_get (vals d) e) -> idx_find (indexes d) (fst x) = None) ->
+    let q := Remove (Ids [QId e]) in
+    cwp fl (so_q_remove h e) sp
+        (fun r sp' => exists h' w', r = CrOk h' /\ qres_ids (snd (Queries.exec rv d q)) = Some (1%Z, []) /\
+                        stored_db_w (hp sp') root (fst (Queries.exec rv d q)) w' /\ so_handles h' w' /\
+                        sdepth sp' = sdepth sp /\ frame (hp sp) (hp sp') (sd_foot root w) (sd_foot root w')).
+Proof. exact so_exec_remove_edge_stored. Qed.
+Print Assumptions C05_db_exec_remove_edge_preserves_stored_db.
+
+Theorem C05_db_exec_remove_isolated_node_preserves_stored_db :
+  forall (fl : bool) rv root d w h n sp,
+    stored_db_w (hp sp) root d w -> so_handles h w -> (0 < n)%Z ->
+    so_graph_ok (gr d) -> is_node (gr d) n = true -> imap_key (aliases d) n = None ->
+    from (gr d) n = 0%Z -> to (gr d) n = 0%Z -> (1 <= tmeta (gr d) 0)%Z ->
+    so_slot_valid (sw_vi w) (zabs_nat n) ->
+    (forall x, In x (kvs_get (vals d) n) -> idx_find (indexes d) (fst x) = None) ->
+    let q := Remove (Ids [QId n]) in
+    cwp fl (so_q_remove h n) sp
+        (fun r sp' => exists h' w', r = CrOk h' /\ qres_ids (snd (Queries.exec rv d q)) = Some (1%Z, []) /\
+                        stored_db_w (hp sp') root (fst (Queries.exec rv d q)) w' /\ so_handles h' w' /\
+                        sdepth sp' = sdepth sp /\ frame (hp sp) (hp sp') (sd_foot root w) (sd_foot root w')).
+Proof. exact so_exec_remove_isolated_node_stored. Qed.
+Print Assumptions C05_db_exec_remove_isolated_node_preserves_stored_db.
